@@ -290,6 +290,8 @@ def tasks(tier, seed):
             for kd in (kinds if tier == 'thorough' else [kinds[(gi + sh) % len(kinds)], 'dictdist']):
                 T.append(Task('bfs/%s/%s/%s' % (g.name, 'shuffle' if sh else 'ordered', kd), h_bfs, (g, kd, sh), tier='B'))
     T.append(Task('from_mdp/nondeterministic', h_from_mdp_nondeterministic, (), tier='B'))
+    for order in (('m1', 'm2'), ('m2', 'm1')):
+        T.append(Task('from_mdp/two-conversions-alive/' + '-'.join(order), h_two_conversions, (order,), tier='B'))
     for n in (1, 3):
         T.append(Task('reconstruct/n%d' % n, h_reconstruct, (n,), tier='B'))
     T.append(Task('rt/real-seeds', rt_real_seeds, (seed, 60 if tier == 'quick' else 600), tier='R', kind='rt'))
@@ -311,3 +313,33 @@ SENTINELS = globals().get('SENTINELS', []) + [
     Sentinel('bfs-forgets-the-predecessor-of-later-states', 'msdm.algorithms.search', '                if ns not in visited and ns not in queue:\n                    queue.append(ns)\n                    camefrom[ns] = (s, a)',
              '                if ns not in visited and ns not in queue:\n                    queue.append(ns)\n                camefrom[ns] = (s, a)', ['re:^bfs/(shortcut|revise|selfloop)']),
 ]
+
+
+def h_two_conversions(order):
+    """two deterministic MDPs converted by from_mdp and BOTH kept alive: each converted problem keeps the components of ITS OWN MDP (a later conversion
+    must not re-point an earlier one), and planning on the first after converting the second is still optimal for the first"""
+    m1 = QuickMDP(lambda s, a: DictDistribution({{('s', 'a'): 'x', ('s', 'b'): 'g', ('x', 'a'): 'g', ('g', 'a'): 'g'}[(s, a)]: 1.0}),
+                  reward=lambda s, a, ns: {('s', 'a'): -1.0, ('s', 'b'): -5.0, ('x', 'a'): -1.0}.get((s, a), 0.0),
+                  actions=lambda s: {'s': ('a', 'b'), 'x': ('a',), 'g': ('a',)}[s], initial_state_dist=DictDistribution({'s': 1.0}), is_absorbing=lambda s: s == 'g')
+    m2 = QuickMDP(lambda s, a: UniformDistribution([{('s', 'c'): 'g', ('g', 'c'): 'g'}[(s, a)]]), reward=lambda s, a, ns: -7.0 if s == 's' else 0.0,
+                  actions=lambda s: ('c',), initial_state_dist=UniformDistribution(['s']), is_absorbing=lambda s: s == 'g')
+    ms = {'m1': m1, 'm2': m2}
+    ds = {}
+    for nm in order:
+        ds[nm] = dsp_mod.DeterministicShortestPathProblem.from_mdp(ms[nm])
+    d1, d2 = ds['m1'], ds['m2']
+    S.check('from_mdp:each-converted-problem-keeps-the-components-of-its-own-MDP(both-alive)', S.truth(
+        tuple(d1.actions('s')) == ('a', 'b') and tuple(d2.actions('s')) == ('c',) and d1.reward('s', 'b', 'g') == -5.0 and d2.reward('s', 'c', 'g') == -7.0 and
+        d1.next_state('s', 'a') == 'x' and d2.next_state('s', 'c') == 'g' and d1.initial_state() == 's' and d1.is_absorbing('g') and not d1.is_absorbing('x')))
+    for tie in ('lifo', 'fifo'):
+        r1 = se.AStarSearch(tie_breaking_strategy=tie).plan_on(d1)
+        S.check('A*:planning-on-the-first-converted-problem-after-converting-the-second-is-optimal-for-the-first', S.truth(
+            r1 is not None and list(r1.path) == ['s', 'x', 'g'] and r1.path_value == 2.0))
+    b1 = se.BreadthFirstSearch().plan_on(d1)
+    S.check('BFS:planning-on-the-first-converted-problem-after-converting-the-second-is-valid', S.truth(b1 is not None and list(b1.path) == ['s', 'g']))
+    # nested use: a heuristic that itself plans on ANOTHER converted problem while the outer search is running
+    def nested_h(s):
+        se.BreadthFirstSearch().plan_on(m2)
+        return 0.0
+    r = se.AStarSearch(heuristic_value=nested_h).plan_on(m1)
+    S.check('A*:a-heuristic-that-plans-on-another-model-does-not-disturb-the-outer-search', S.truth(r is not None and list(r.path) == ['s', 'x', 'g'] and r.path_value == 2.0))
